@@ -289,8 +289,8 @@ DeletePersonEffect(d, id) ==
 DeletePersonErrs(d, sysctx, id, veto) ==
   LET p == d.ent[id]
       refs == IF FkKind(BossMode) = "index" THEN d.backBoss[id] \ {id}          \* own back-reference is removed first
-              ELSE IF FkKind(BossMode) = "constraint" THEN {e \in Ids : Present(d, e) /\ d.ent[e].boss = id}
-              ELSE {}
+              ELSE IF FkKind(BossMode) = "constraint" /\ ~FkCascade(BossMode) THEN {e \in Ids : Present(d, e) /\ d.ent[e].boss = id}
+              ELSE {}        \* (a cascading constraint deletes the referrers instead: DelTree)
   IN (IF refs # {} THEN {"refExists"} ELSE {})
      \cup (IF d.backChief[id] # {} THEN {"refExists"} ELSE {})       \* the delete constraint registered on the child store
      \cup (IF p.sys /\ ~sysctx /\ (SysScope = "parent" \/ HasExt(d, id)) THEN {"system"} ELSE {})
@@ -304,12 +304,37 @@ DelEvs(d, id) ==
   ELSE IF ChildExtended THEN EvsFor("deleted", id, d.ent[id], [lead |-> FALSE, grade |-> ""])
   ELSE << Ev("people", "deleted", id, <<d.ent[id].name, d.ent[id].nick>>) >>
 
+\* sorted sequence of a finite set under a strict total order given as a sequence of all elements
+SortedBy(S, ordSeq) == LET F[k \in 0..Len(ordSeq)] ==
+                             IF k = 0 THEN << >>
+                             ELSE IF ordSeq[k] \in S THEN Append(F[k-1], ordSeq[k]) ELSE F[k-1]
+                       IN F[Len(ordSeq)]
+
+\* people.boss wired as a cascading constraint: deleting a person first deletes, one after the other in id order and each with its
+\* own cascade, the persons whose boss it is -- except those whose delete is already under way further up (busy: a person that is its
+\* own boss, a cycle of bosses); a referrer that an earlier referrer's cascade took along is gone by the time its turn comes.
+\* The events of the cascaded deletes precede the event of the delete that caused them.
+BossKids(d, id, busy) == IF FkCascade(BossMode) THEN {e \in Ids \ (busy \cup {id}) : Present(d, e) /\ d.ent[e].boss = id} ELSE {}
+RECURSIVE DelTree(_, _, _, _, _, _), DelSeq(_, _, _, _, _, _)
+DelTree(d, sysctx, id, veto, busy, Ord) ==
+  LET own == DeletePersonErrs(d, sysctx, id, veto)
+      sub == DelSeq(d, sysctx, SortedBy(BossKids(d, id, busy), Ord), busy \cup {id}, Ord, FALSE)
+  IN IF own \cup sub.errs # {} THEN Res(d, own \cup sub.errs, << >>, NIL)
+     ELSE Res(DeletePersonEffect(sub.db, id), {}, sub.evs \o DelEvs(sub.db, id), NIL)
+\* strict: the ids were collected beforehand (DeleteWhere) -- one that is gone by its turn fails the call with not-found;
+\* otherwise (a cascade walking a live cursor) it is simply no longer met
+DelSeq(d, sysctx, todo, busy, Ord, strict) ==
+  IF todo = << >> THEN Res(d, {}, << >>, NIL)
+  ELSE IF ~Present(d, todo[1]) THEN (IF strict THEN Res(d, {"notfound"}, << >>, NIL) ELSE DelSeq(d, sysctx, Tail(todo), busy, Ord, strict))
+  ELSE LET one == DelTree(d, sysctx, todo[1], FALSE, busy, Ord)
+       IN IF one.errs # {} THEN Res(d, one.errs, << >>, NIL)
+          ELSE LET rest == DelSeq(one.db, sysctx, Tail(todo), busy, Ord, strict)
+               IN Res(rest.db, rest.errs, one.evs \o rest.evs, NIL)
+
 \* DeleteById through either store (the child forwards to the root)
-DeleteOp(d, sysctx, id, veto) ==
+DeleteOp(d, sysctx, id, veto, Ord) ==
   IF ~Present(d, id) THEN Res(d, {"notfound"}, << >>, NIL)
-  ELSE LET errs == DeletePersonErrs(d, sysctx, id, veto)
-       IN IF errs # {} THEN Res(d, errs, << >>, NIL)
-          ELSE Res(DeletePersonEffect(d, id), {}, DelEvs(d, id), NIL)
+  ELSE DelTree(d, sysctx, id, veto, {}, Ord)
 
 \* chief: NIL or an id; the target of teams.chief has to be present in the *child* store
 CreateTeamOp(d, t, chief) ==
@@ -325,21 +350,8 @@ UpdateTeamOp(d, t, chief) ==
                      !.backChief = [i \in Ids |-> IF i = chief THEN d.backChief[i] \cup {t} ELSE d.backChief[i] \ {t}]],
            {}, << Ev("teams", "updated", t, << >>) >>, NIL)
 
-\* cascade: delete the referrers one after the other, in id order (Ord = the order on ids)
-RECURSIVE CascadeDel(_, _, _, _)
-CascadeDel(d, sysctx, todo, Ord) ==     \* todo: sequence of person ids still to delete
-  IF todo = << >> THEN Res(d, {}, << >>, NIL)
-  ELSE LET id == todo[1]
-           errs == DeletePersonErrs(d, sysctx, id, FALSE)
-       IN IF errs # {} THEN Res(d, errs, << >>, NIL)
-          ELSE LET rest == CascadeDel(DeletePersonEffect(d, id), sysctx, Tail(todo), Ord)
-               IN Res(rest.db, rest.errs, DelEvs(d, id) \o rest.evs, NIL)
-
-\* sorted sequence of a finite set under a strict total order given as a sequence of all elements
-SortedBy(S, ordSeq) == LET F[k \in 0..Len(ordSeq)] ==
-                             IF k = 0 THEN << >>
-                             ELSE IF ordSeq[k] \in S THEN Append(F[k-1], ordSeq[k]) ELSE F[k-1]
-                       IN F[Len(ordSeq)]
+\* cascade from another store (people.team): delete the referrers one after the other, in id order, walking a live cursor
+CascadeDel(d, sysctx, todo, Ord) == DelSeq(d, sysctx, todo, {}, Ord, FALSE)
 
 \* DeleteWhere(query) through store `via`: the ids come from the query of *that* store -- a plain child store sees only
 \* entities with child data, and only it knows the child's own fields -- then DeleteById one after the other in id order;
@@ -349,7 +361,7 @@ WhereMatch(d, pred, id) == CASE pred[1] = "all" -> TRUE
                              [] pred[1] = "name" -> d.ent[id].name = pred[2]
                              [] pred[1] = "grade" -> HasExt(d, id) /\ d.ext[id].grade = pred[2]
 DeleteWhereOp(d, sysctx, via, pred, idOrder) ==
-  CascadeDel(d, sysctx, SortedBy({id \in Ids : Visible(d, via, id) /\ WhereMatch(d, pred, id)}, idOrder), idOrder)
+  DelSeq(d, sysctx, SortedBy({id \in Ids : Visible(d, via, id) /\ WhereMatch(d, pred, id)}, idOrder), {}, idOrder, TRUE)
 
 DeleteTeamOp(d, sysctx, t, idOrder) ==
   IF t \notin d.tms THEN Res(d, {"notfound"}, << >>, NIL)
